@@ -575,10 +575,17 @@ class ExprMixin(object):
                 if attr in REG.noop_fields:
                     return BuiltinV("noop-obj")
                 fty = self.field_type_for(base, attr)
+                if fty is not None and fty.kind == "callable":
+                    # an attribute holding a pure callable (a lambda set at initialisation): its result is unconstrained
+                    return BuiltinV("callfield", (fty, base))
                 if fty is not None:
                     v = ctx.read_field(base, attr, fty)
-                    if not spec:
-                        ctx.assume_ref_typed(v) if isinstance(v, RefV) else None
+                    if isinstance(v, RefV):
+                        if not spec:
+                            ctx.assume_ref_typed(v, ctx.field_key(attr))
+                        elif not getattr(self, "quant_depth", 0) and ctx.is_entry_map(ctx.field_key(attr)):
+                            # spec reads of the entry heap: closed under dereferencing as well
+                            ctx.assume_ref_typed(v, ctx.field_key(attr))
                     return v
                 info = self.class_by_name(b.name)
                 if info is not None:
@@ -777,7 +784,7 @@ class ExprMixin(object):
                     self.oblige("no-IndexError", z3.And(0 <= I, I < n), kind="safety")
                 v = ctx.list_get(base, I)
                 if not spec and isinstance(v, RefV):
-                    ctx.assume_ref_typed(v)
+                    ctx.assume_ref_typed(v, ctx._el_key(base.ty.base.args[0]))
                 return v
             if b.kind == "dict":
                 return self.dict_get(base, idx, spec)
